@@ -56,6 +56,42 @@ CHECKS = {
         "trusted: mc/sched.py (determinism probe replays one schedule twice per harness before exploring; divergence is a hard error); intra-line switches and C-extension internals are atomic; two preemptions at line granularity are not claimed",
         "stateless model checking of thread interleavings with iterative context bounding on the real code (sys.settrace scheduling points, semaphore baton)",
     ),
+    "C03": (
+        "E1-lattice",
+        "Every tree of the DSL element family and the parser image of every lattice schema (depth<=2, wrappers, object core) is serialized by the real serialize_json under every definitions choice of a generated menu (none, each distinct sub-element, an equal copy, an unrelated element, an object class of the tree, two roots); the document must be JSON-serializable, Draft-6 metaschema-valid, reference-closed, and for every alphabet value the tree's verdict must equal the reference evaluator's verdict on the document (disagreements that statham's own re-parse of the document shares are attributed to C01 and counted).",
+        "trusted: mc/ref/draft6.py; preconditions: class names unique within a tree, definition keys distinct from class names",
+        "explicit-state enumeration of element trees x definitions choices x values on the real serializer, reference-model oracle on the produced document",
+    ),
+    "C05": (
+        "E1-lattice",
+        "The full product of 5 declaration forms x property sets over plain and renamed names x 14 (kind, default) options (none, valid, invalid, falsy, nested-object, required+default) x 4 additionalProperties options x all subsets of supplied members is executed and every member of the resulting model compared with a dict reference model; every element of the DSL family is also called with no value.",
+        "trusted: the dict reference model in mc/checks/c05.py; validity of a default is judged differentially by supplying it explicitly",
+        "exhaustive enumeration of object declarations x supplied-member subsets on the real code, dict reference model",
+    ),
+    "C06": (
+        "E1-lattice",
+        "Every lattice schema (depth<=2, wrappers, object core, depth-3 slice; thorough: depth 3 in groups, wrappers of depth 2) is pushed through parse -> serialize_json -> real dereferencing pipeline -> parse -> serialize_json and through serialize_python -> exec; the second document must be identical to the first (type-strict, ordered), the re-parsed element must behave identically, and the generated classes must equal the parsed ones.",
+        "trusted: json_ref_dict's materialize as the documented dereferencer; object-typed schemas carry a title",
+        "explicit-state enumeration of the schema lattice, differential round-trip oracle (first vs second serialization, parsed vs executed generated classes)",
+    ),
+    "C07": (
+        "E1-lattice",
+        "The full product 13 contexts x 20 inner shapes x 14 default values x {with, without a second default} and 6 class positions x a 42-string description alphabet is run through the real parser, both serializers and exec of the generated module; the element at the declaring position must carry exactly the default, the multiset of defaults must be preserved in the tree, the JSON document and the generated classes, no container default may be shared by identity, descriptions must arrive character for character.",
+        "trusted: position accessors in mc/checks/c07.py; one ambiguous shape (one-branch composition with two competing defaults) and lone surrogates are excluded, as stated",
+        "exhaustive enumeration of default/description placements on the real parser and serializers, positional + multiset oracle",
+    ),
+    "C16": (
+        "E2-history",
+        "BFS over all registration histories (4 names x 3 predicates, depth 3 / 4 = whole reachable registry space) with every (element kind, name, value) verdict and warning count compared with a name->predicate reference dict in every state; plus exhaustive enumeration of a canonical-UUID family and of the per-field boundary product of RFC 3339 timestamps through the built-in checkers.",
+        "trusted: RFC 3339 generator (mc/ref/draft6.is_rfc3339 filters the product); two recorded dateutil limits are listed in known_findings.json",
+        "explicit-state BFS over registry histories + exhaustive enumeration of built-in format families, reference-dict oracle",
+    ),
+    "C17": (
+        "E1-lattice",
+        "== is evaluated on every ordered pair of a 479-element pool built so that most pairs differ in one keyword, one literal (1/true/1.0, []/not-passed), one property attribute or only the element class; reflexivity, symmetry and equality of independently rebuilt copies are checked, and every equal pair must have identical verdict vectors over the value alphabet and identical JSON serializations (JSON data model, titles normalised).",
+        "trusted: pool construction in mc/checks/c17.py; the weaker (title-normalised, numeric-by-value) reading of 'same JSON Schema'",
+        "exhaustive enumeration of ordered element pairs, equality-implies-indistinguishability oracle",
+    ),
 }
 
 PENDING_REASON = "check not built yet in this session (planned in DESIGN.md section 4); no claim is made until its machinery exists"
